@@ -306,6 +306,23 @@ fn run_op(db: &mut FixtureDatabase, op: &Value) -> Value {
                 .collect();
             json!({"available": av.iter().map(def_json).collect::<Vec<_>>(), "names": per})
         }
+        "both" => {
+            // C06: the long-lived database next to one built fresh from the given ops
+            let queries: Vec<Value> = op.get("queries").and_then(|v| v.as_array()).cloned().unwrap_or_default();
+            let answer = |d: &mut FixtureDatabase| -> Value {
+                let answers: Vec<Value> = queries.iter().map(|q| run_op(d, q)).collect();
+                json!({"dump": dump(d), "answers": answers})
+            };
+            let live = answer(db);
+            let mut fresh = FixtureDatabase::new();
+            if let Some(ops) = op.get("fresh_ops").and_then(|v| v.as_array()) {
+                for o in ops {
+                    run_op(&mut fresh, o);
+                }
+            }
+            let fr = answer(&mut fresh);
+            json!({"live": live, "fresh": fr})
+        }
         "refs_by_name" => {
             let r = db.find_fixture_references(s(op, "name"));
             let mut v: Vec<Value> = r.iter().map(usage_json).collect();
